@@ -576,8 +576,37 @@ func (b *Bridge) after(in *hub.Instance, g *bridgeGhost, op engine.Op, pre *view
 		}
 	}
 
+	// ---- C01: vouchers are minted only for what an observed deposit locked or what a refund returns. An EndBlocker that
+	// applies no event and leaves pool and batches exactly as they were has no reason to mint: the balances of the module
+	// account and of its transit address stay as they are
+	if endBlock && b.Cfg.Prop == "C01" && len(g.Pending) == 0 && len(newIDs) == 0 && len(expiredNow) == 0 && sameLocs(preLocs, locs) {
+		for _, acc := range []string{"temp", "module"} {
+			if !preBal[acc].IsEqual(postBal[acc]) {
+				st.Violate("C01", "vouchers_minted_without_deposit_or_refund", "EndBlocker", "no event applied, no transfer created, refunded or moved, yet the %s account went from %s to %s in this EndBlocker", acc, preBal[acc], postBal[acc])
+			}
+		}
+	}
+
 	// ---- C01 solvency
 	b.solvency(in, g, op, pre, post, preBal, postBal, st, endBlock)
+}
+
+func sameLocs(a, b map[string][]loc) bool {
+	if len(a) != len(b) {
+		return false
+	}
+	for k, la := range a {
+		lb := b[k]
+		if len(la) != len(lb) {
+			return false
+		}
+		for i := range la {
+			if la[i].where != lb[i].where {
+				return false
+			}
+		}
+	}
+	return true
 }
 
 func splitBatch(where string) string { // "batch:<token>:<nonce>" -> "<token>|<nonce>"
